@@ -1513,6 +1513,9 @@ class Walker(object):
                 fn2, genv2, p2 = self.resolve(fr, target.path, list(target.args), None)
                 if fn2 is not None:
                     return self.enter(st, fr, fn2, genv2, spread, (dest_obj, dest_proj), t)
+                cv = self.ctor_value(target.path, spread, dest_ty)
+                if cv is not None and target.path not in self.opaque_paths:
+                    return self.finish_builtin(st, fr, cv, t, dest_obj, dest_proj, work)
                 return self.do_effect(st, fr, target.path, spread, t, dest_obj, dest_proj, dest_ty)
         fn, genv, rpath = self.resolve(fr, path, targs, f)
         # builtin models take priority, unless the query asked for the call to be an opaque effect
@@ -1530,11 +1533,32 @@ class Walker(object):
             if h == "effect":
                 fn = None
         if fn is None:
+            cv = self.ctor_value(rpath, args, dest_ty)
+            if cv is not None and rpath not in self.opaque_paths:
+                return self.finish_builtin(st, fr, cv, t, dest_obj, dest_proj, work)
             return self.do_effect(st, fr, rpath, args, t, dest_obj, dest_proj, dest_ty)
         if rpath.endswith("::deref") and (rpath + "::__static_ref_initialize") in self.prog.fns:
             r = self.lazy_static(st, rpath)
             return self.finish_builtin(st, fr, r, t, dest_obj, dest_proj, work)
         return self.enter(st, fr, fn, genv, args, (dest_obj, dest_proj), t)
+
+    def ctor_value(self, path, args, dest_ty):
+        """a tuple-variant / tuple-struct constructor used as a function (`Some`, `BitOperand8::Reg` passed to map_or_else):
+        the aggregate it builds"""
+        base = path.split("::<")[0] if path.endswith(">") else path
+        if "::" not in base:
+            return None
+        parent, last = base.rsplit("::", 1)
+        a = self.prog.adts.get(parent)
+        if a is not None:
+            for vi, v in enumerate(a["variants"]):
+                if v["name"] == last and len(v["fields"]) == len(args):
+                    return Agg(("adt", parent), vi, list(args))
+        a = self.prog.adts.get(base)
+        if a is not None and a["kind"] == "struct" and len(a["variants"]) == 1 and len(a["variants"][0]["fields"]) == len(args) and \
+                all(f["name"].isdigit() for f in a["variants"][0]["fields"]):
+            return Agg(("adt", base), 0, list(args))
+        return None
 
     def call_pure(self, st, fn, genv, args):
         """Evaluate fn(args) on a copy of the state; it must have exactly one returning, effect-free path."""
